@@ -1299,8 +1299,16 @@ class Table:
             # An unset current_snapshot_id means "empty table". A SET id that
             # resolves to nothing means the metadata is inconsistent - returning
             # [] there would report a broken table as an empty one (#48).
+            # Both facts must come from ONE read of the metadata: with a second
+            # read, the table's first commit landing in between made a healthy
+            # table look inconsistent (current id set, "no such snapshot").
             metadata = self.metadata_manager.refresh()
             current_id = metadata.current_snapshot_id if metadata else None
+            if metadata is not None and current_id is not None and current_id != -1:
+                snapshot = next(
+                    (s for s in metadata.snapshots if s.snapshot_id == current_id), None
+                )
+        if not snapshot:
             if current_id is not None and current_id != -1:
                 raise RuntimeError(
                     f"Table metadata is inconsistent: current_snapshot_id {current_id} "
